@@ -294,6 +294,14 @@ fn window_site(site: u16) -> bool {
         || site == S::HELP_SPACE_LOAD as u16
         || site == S::COOLDOWN_START as u16
         || site == S::WRITER_SUB as u16
+        // third round of seeded changes: the reader's announcement steps, the writer's first look at a
+        // node's control word and the three reads of the cooldown check are windows too
+        || site == S::HELP_CTRL_LOAD as u16
+        || site == S::HELPING_ADDR_STORE as u16
+        || site == S::HELPING_CTRL_GEN as u16
+        || site == S::COOLDOWN_CHECK as u16
+        || site == S::COOLDOWN_WRITERS as u16
+        || site == S::COOLDOWN_CAS as u16
         || site == hs::TP_INTO
         || site == hs::CLOSURE
         || site == hs::TP_INC
